@@ -94,6 +94,17 @@ func genAdversarialRecs(r *vk.RNG, n int) []Rec {
 		sets[0] = map[string]string{"job": "j", "a": "b", "c": "d"}
 		sets[1] = map[string]string{"job": "j", "a": other}
 	}
+	if r.Chance(1, 4) {
+		// a label present with the empty value is not an absent label; values holding the separator a
+		// joined key would use (NUL) split differently over two labels
+		if r.Bool() {
+			sets[0] = map[string]string{"job": "j", "a": "", "b": "y"}
+			sets[1] = map[string]string{"job": "j", "b": "y"}
+		} else {
+			sets[0] = map[string]string{"job": "j", "a": "x\x00", "b": "y"}
+			sets[1] = map[string]string{"job": "j", "a": "x", "b": "\x00y"}
+		}
+	}
 	if nsets >= 4 && r.Bool() {
 		// a permutation family: the same three values spread over the same three names
 		vals := []string{"x", "y", "z"}
@@ -298,9 +309,16 @@ func runC10(r *vk.Run) {
 			size[line] = n
 			sizeByGrp[fmt.Sprint(g)] = n
 			levelCount[level] += n
+			sameInstant := rng.Chance(1, 3) // a burst: identical records at one and the same nanosecond are n records
+			at := metricT0 + 5e8 + int64(len(recs))*1e6
 			for k := 0; k < n; k++ {
-				recs = append(recs, Rec{TS: metricT0 + 5e8 + int64(len(recs))*1e6, Line: line, Labels: map[string]string{"job": "j"}})
+				ts := metricT0 + 5e8 + int64(len(recs))*1e6
+				if sameInstant {
+					ts = at
+				}
+				recs = append(recs, Rec{TS: ts, Line: line, Labels: map[string]string{"job": "j"}})
 			}
+			sortRecs(recs)
 		}
 		p := EvalP{Start: metricT0 + 10e9, End: metricT0 + 10e9}
 		for rep := 0; rep < c.R.N(6, 20); rep++ {
